@@ -154,10 +154,13 @@ func init() {
 		}
 		nForms := func() int64 { return gOf().Count(0, fW) }
 		// a program is a sequence of 2 (quick) or 2..3 (thorough) top-level forms
+		// thorough adds all triples of weight-1 forms
+		nLeaf := func() int64 { return gOf().Count(0, 1) }
 		size := func() int64 {
 			n := nForms()
 			if tier == "thorough" {
-				return n*n + n*n*n
+				m := nLeaf()
+				return n*n + m*m*m
 			}
 			return n * n
 		}
@@ -167,11 +170,12 @@ func init() {
 				return []V{gOf().Unrank(0, i/n), gOf().Unrank(0, i%n)}
 			}
 			i -= n * n
-			return []V{gOf().Unrank(0, i/(n*n)), gOf().Unrank(0, (i/n)%n), gOf().Unrank(0, i%n)}
+			m := nLeaf()
+			return []V{gOf().Unrank(0, i/(m*m)), gOf().Unrank(0, (i/m)%m), gOf().Unrank(0, i%m)}
 		}
 		fam := &vf.Family{
 			Name:   "programs-x-layouts-x-routes",
-			Bounds: fmt.Sprintf("programs: every sequence of 2 (quick) / 2-3 (thorough) top-level forms, each a core-form program of weight <=2 (C01 grammar + throw, (t! x), a string, a map literal); %d layouts (single line, form per line, comments between all tokens, blank lines, CRLF, no final newline, trailing comment without newline, tabs + leading comment); routes: READ with module, READ with nil cursor, cursor-free AST built from Go, READ(PRINT(ast)), forms one by one through REPL, one wrapping do, load-file from a file", len(c19Layouts)),
+			Bounds: fmt.Sprintf("programs: every sequence of 2 top-level forms, each a core-form program of weight <=2 (thorough: also every sequence of 3 weight-1 forms) (C01 grammar + throw, (t! x), a string, a map literal); %d layouts (single line, form per line, comments between all tokens, blank lines, CRLF, no final newline, trailing comment without newline, tabs + leading comment); routes: READ with module, READ with nil cursor, cursor-free AST built from Go, READ(PRINT(ast)), forms one by one through REPL, one wrapping do, load-file from a file", len(c19Layouts)),
 			Setup:  setup,
 			N:      func(t string) int64 { tier = t; return size() },
 			Describe: func(i int64) string {
@@ -213,7 +217,7 @@ func init() {
 						fmt.Sprintf("reference: %s | %s\n%s: %s | %s %s", outStr(ref.out), ref.binds, route, outStr(got.out), got.binds, got.note))
 					return false
 				}
-				for _, lay := range c19Layouts {
+				for li, lay := range c19Layouts {
 					text := lay.render(toks)
 					// READ with module / with nil cursor, wrapped in one do
 					for _, withMod := range []bool{true, false} {
@@ -273,8 +277,9 @@ func init() {
 							return
 						}
 					}
-					// load-file from a file, in its own root environment
-					{
+					// load-file from a file, in its own root environment (quick: the four layouts
+					// that differ at line ends; thorough: all)
+					if tier == "thorough" || li == 2 || li == 4 || li == 5 || li == 6 {
 						path := filepath.Join(rg.dir, "prog.lisp")
 						os.WriteFile(path, []byte(text), 0o644)
 						root := env.NewEnv()
